@@ -9,14 +9,26 @@ from .. import fake_engine as fe
 from ..common import w, rd, rdl, rdll, close, fr
 
 RULE = ("oracle histories for the real Engine.price driven by a scripted coupling process (unique dyadic sample values) and a "
-        "scripted public ConvergenceCriteria: random (initial level 0..4, N0 1..40, max level <= 8, 1..7 iterations, sizes that "
-        "grow / stall / shrink, verdicts) + the directed family 'level added at iteration t whose first pass has dN in {0,1,2}'; "
-        "fixed-level variant for max level 0..5. non-trivial = at least two passes or one level addition; distinct = distinct "
-        "(configuration, history)")
-NOT_PROVED = ["numpy/scipy moment kernels (np.mean, scipy.stats.moment) are compared with the model's exact rational moments, not proved",
-              "control-variate adjusted arrays are oracle-checked on the implementation (same rows as the raw arrays, Y - b*(X - price_X) per level and column), not part of the Lean model",
+        "scripted public ConvergenceCriteria: random (initial level 0..4, N0 1..230, max level <= 8, 1..7 iterations, sizes that "
+        "grow / stall / shrink, verdicts, convergence rates from a set of 5 with 2^rate exact) + the directed families 'level added at "
+        "iteration t whose first pass has dN in {0,1,2,5}' and 'return with a top-up within the 1 % rule'; fixed-level variant for max "
+        "level 0..5; with control variates: the same random histories on a second scripted process (non-monotone dyadic values) with one "
+        "scripted control (square / call / forward of the terminal value, own notional and price) + one-level cases whose control mean "
+        "equals its price exactly. Every read point of every history is checked (rows, control rows, adjusted rows, what the criteria "
+        "callbacks received). non-trivial = at least two passes or one level addition; distinct = distinct (configuration, history)")
+NOT_PROVED = ["numpy/scipy moment kernels (np.mean, scipy.stats.moment, np.cov) are compared with the model's exact rational moments, not proved",
+              "control variates in the multilevel engine: the bookkeeping theorems (same rows, adjusted row formula, price = sum of adjusted level "
+              "means, cv_mean_identity_mlmc) hold for any number of controls and any regression kernel; the kernel itself is the exact "
+              "one-control formula in the driver (two or more controls in the multilevel engine are not compared), payoff dimension 1 "
+              "(the multilevel results only read payoff component 0)",
+              "the cost of one simulation of a level is a constant of the scripted process (cl = that constant is proved from sum_cost = cost x N_l); "
+              "a real coupling process measures it, which is outside the model",
+              "regression of alpha, beta, gamma when the rates are not given (np.linalg.lstsq) is not modelled: rates are given in every run",
               "multi-process callback order is covered by C08; here nb_of_processes=1"]
-ASSUMPTIONS = ["the 1% rule is compared away from its float boundary (histories with 100*dN == N are not generated)"]
+ASSUMPTIONS = ["the 1% rule is compared away from its float boundary (histories with 100*dN == N are not generated)",
+               "adjusted rows / level statistics with control variates are compared at 2^-40 relative to a cancellation-aware scale "
+               "(rounding of cov/var amplified by 1/var); raw rows, control rows, N_l and all shapes exactly",
+               "levels without samples (N_l = 0, numpy gives nan) are excluded from the comparison of the fed ml/vl/cl and counted"]
 TRUSTED = ["copy.deepcopy of the coupling process per level; numpy array assignment / np.pad"]
 
 
@@ -151,29 +163,152 @@ def compare_read(ctx, desc, snap, m, cls, where):
     return True
 
 
-def one_history(ctx, L0, N0, level_max, hist, tag):
+RATES = [(1.0, 2.0, 1.0), (2.0, 1.0, 1.0), (1.0, 1.0, 2.0), (3.0, 2.0, 0.0), (2.0, 3.0, 1.0)]
+
+
+def group_calls(calls):
+    """calls recorded by fe.run_mlmc_hooked -> one dict per loop iteration: vl, cl (first compute_mc_paths), ml (criteria, if
+    reached), vl2, cl2 (second compute_mc_paths, if a level was appended)"""
+    its = []
+    for c in calls:
+        if c[0] == "mc_paths":
+            its.append({"vl": c[1], "cl": c[2]})
+        elif c[0] == "criteria":
+            its[-1]["ml"] = c[2]
+        else:
+            its[-1]["vl2"], its[-1]["cl2"] = c[1], c[2]
+    return its
+
+
+def parse_feeds(tok5):
+    return dict(ml=rdl(tok5[0]), vl=rdl(tok5[1]), cl=rdl(tok5[2]), vl2=rdl(tok5[3]), cl2=rdl(tok5[4]))
+
+
+def _workaround(xs, q):
+    xs = list(xs)
+    for l in range(3, len(xs)):
+        xs[l] = max(xs[l], 0.5 * xs[l - 1] / q)
+    return xs
+
+
+def oracle_feeds(ctx, desc, r, rates, cls, fine=None, coarse=None):
+    """S (independent of M): what the criteria callbacks received at every iteration is computed from exactly the samples
+    simulated so far (taken from the process's own log), and cl from the accumulated cost"""
+    fine = fine or fe.fine_value
+    coarse = coarse or fe.coarse_value
+    qa, qb, qg = (2.0 ** x for x in rates)
+    its = group_calls(r["calls"])
+    if len(its) != len(r["reads"]):
+        ctx.fail("oracle", "c05.feeds_from_samples", desc, {"what": "callback protocol", "iterations": len(its), "reads": len(r["reads"])}, cls=cls)
+        return False
+    for i, (it, snap) in enumerate(zip(its, r["reads"])):
+        sims = {}
+        for kind, l, k in r["log"][:snap["loglen"]]:
+            if kind == "sim":
+                sims.setdefault(l, []).append(k)
+        nl = len(it["vl"])
+        if any(len(sims.get(l, [])) == 0 for l in range(nl)):
+            ctx.branches["c05.feeds:level_without_samples_skipped"] += 1
+            continue
+        ml, vl, cl, sc = [], [], [], 0.0
+        for l in range(nl):
+            ks = sims[l]
+            dp = np.array([fe.DF * fine(l, k) - (0.0 if l == 0 else fe.DF * coarse(l, k)) for k in ks])
+            sc = max(sc, float(np.max(np.abs(dp))))
+            ml.append(abs(float(np.mean(dp))))
+            vl.append(max(0.0, float(np.mean(dp * dp)) - float(np.mean(dp)) ** 2))
+            cl.append(float(2 ** l))
+        ml, vl = _workaround(ml, qa), _workaround(vl, qb)
+        bad = None
+        if not np.allclose(it["vl"], vl, rtol=0, atol=1e-9 * sc * sc) or not np.allclose(it["cl"], cl, rtol=1e-12, atol=0):
+            bad = {"what": "vl / cl handed to compute_mc_paths are not those of the samples simulated so far", "got": [it["vl"], it["cl"]], "expected": [vl, cl]}
+        elif "ml" in it and not np.allclose(it["ml"], ml, rtol=0, atol=1e-9 * sc):
+            bad = {"what": "ml handed to the bias test is not that of the samples simulated so far", "got": it["ml"], "expected": ml}
+        elif "vl2" in it and (not np.allclose(it["vl2"], vl + [vl[-1] / qb], rtol=0, atol=1e-9 * sc * sc)
+                              or not np.allclose(it["cl2"], cl + [cl[-1] * qg], rtol=1e-12, atol=0)):
+            bad = {"what": "extrapolated vl / cl of the second compute_mc_paths call", "got": [it["vl2"], it["cl2"]]}
+        if bad:
+            bad["iteration"] = i
+            ctx.fail("oracle", "c05.feeds_from_samples", desc, bad, cls=cls)
+            return False
+    return True
+
+
+def compare_feeds(ctx, desc, r, feeds_m, cls, scale, name):
+    """C: Mlmc.mlFed / vlFed / clFed (+ the extrapolated second call) vs the arguments the real callbacks received"""
+    its = group_calls(r["calls"])
+    if len(its) != len(feeds_m):
+        ctx.fail("corr", name, desc, {"name": "Drivers/C05 feeds vs callback arguments (number of iterations)", "impl": len(its), "model": len(feeds_m)}, cls=cls)
+        return False
+    for i, (it, m, snap) in enumerate(zip(its, feeds_m, r["reads"])):
+        if any(n == 0 for n in snap["Nl"]):
+            continue
+        def same(a, b, sc):
+            return len(a) == len(b) and all(close(x, y, scale=sc) for x, y in zip(a, b))
+        ok = same(it["vl"], m["vl"], scale * scale) and same(it["cl"], m["cl"], None)
+        ok = ok and ("ml" not in it or same(it["ml"], m["ml"], scale))
+        ok = ok and ("vl2" not in it or (same(it["vl2"], m["vl2"], scale * scale) and same(it["cl2"], m["cl2"], None)))
+        if not ok:
+            ctx.fail("corr", name, desc, {"name": "Drivers/C05 feeds vs the arguments received by compute_mc_paths / criteria", "iteration": i,
+                                          "impl": it, "model": {k: [float(x) for x in v] for k, v in m.items()}}, cls=cls)
+            return False
+        ctx.branches["c05.feeds:iterations_compared"] += 1
+        if "ml" in it:
+            ctx.branches["c05.feeds:criteria_calls_compared"] += 1
+        if "vl2" in it:
+            ctx.branches["c05.feeds:second_calls_compared"] += 1
+        if len(it["vl"]) >= 4:
+            ctx.branches["c05.feeds:workaround_levels_ge3"] += 1
+    return True
+
+
+def one_history(ctx, L0, N0, level_max, hist, tag, rates=(1.0, 2.0, 1.0), engine=None, prefix=None):
+    """`engine`: an existing Engine object that has already priced the runs of `prefix` (engine reuse); the run is judged exactly
+    like a fresh one.  Returns the run record (or None)."""
     desc = dict(L0=L0, N0=N0, level_max=level_max, history=[[list(a), bool(b), list(c)] for a, b, c in hist])
+    if tuple(rates) != (1.0, 2.0, 1.0):
+        desc["rates"] = list(rates)
     cls = dict(kind=tag)
+    if engine is not None:
+        desc["reuse_prefix"] = prefix or []
+        cls["engine_reused"] = True
     with warnings.catch_warnings():
         warnings.simplefilter("ignore")
         with np.errstate(all="ignore"):
             try:
-                r = fe.run_mlmc(hist, L0, N0, level_max)
+                r = fe.run_mlmc_hooked(hist, L0, N0, level_max, rates=rates, engine=engine)
             except Exception as e:  # the engine crashed on this history
                 ctx.fail("oracle", "c05.engine_raises", desc, {"what": f"{type(e).__name__}: {e}"}, cls=cls)
-                return
+                return None
     out = ctx.lean(f"price {L0} {N0} {level_max} 0 {enc_history(hist)}")
     blocks = out.split(" # ")
     reads_m = [parse_read(b) for b in blocks[:-1]]
     end = blocks[-1].split(" ")
     nontrivial = len(r["reads"]) >= 2 or any(k == "next_level" and l > L0 for k, l, _ in r["log"])
     ctx.count("c05.history", desc, nontrivial=nontrivial, branch=tag)
+    _judge_history(ctx, desc, cls, r, reads_m, end, hist, L0, N0, level_max, rates)
+    return r
+
+
+def _judge_history(ctx, desc, cls, r, reads_m, end, hist, L0, N0, level_max, rates):
     # S: at every read point the arrays are exactly the simulated samples so far
     for i, snap in enumerate(r["reads"]):
         if not oracle_rows(ctx, "c05.rows_are_samples", dict(desc, read=i), snap, r["log"][:snap["loglen"]], cls):
             return
     if r["final"] is not None and not oracle_rows(ctx, "c05.rows_are_samples", dict(desc, read="final"), r["final"], r["log"], cls):
         return
+    # S: along the run nothing is ever discarded: levels and N_l never decrease and the rows present at one read point are
+    # still there, in place, at the next one (theorems run_mono / run_keeps_samples)
+    seq = r["reads"] + ([r["final"]] if r["final"] is not None else [])
+    for i, (a, b) in enumerate(zip(seq, seq[1:])):
+        bad = None
+        if len(b["Nl"]) < len(a["Nl"]) or any(nb < na for na, nb in zip(a["Nl"], b["Nl"])):
+            bad = "the number of levels or some N_l decreased"
+        elif any(not np.array_equal(ra, rb[:ra.shape[0]]) for ra, rb in zip(a["rows"], b["rows"])):
+            bad = "rows present at one read point were dropped, moved or overwritten before the next one"
+        if bad:
+            ctx.fail("oracle", "c05.samples_kept", dict(desc, read=i), {"what": bad, "Nl_before": a["Nl"], "Nl_after": b["Nl"]}, cls=cls)
+            return
     # C: same trace from the model
     if end[0] != r["outcome"] or len(reads_m) != len(r["reads"]):
         ctx.fail("corr", "c05.model", desc, {"name": "Drivers/C05 price trace vs Engine.price (outcome)", "impl": [r["outcome"], len(r["reads"])],
@@ -185,67 +320,280 @@ def one_history(ctx, L0, N0, level_max, hist, tag):
     if r["final"] is not None:
         if [int(x) for x in rdl(end[2])] != r["final"]["Nl"] or [int(x) for x in rdl(end[4])] != [len(a) for a in r["final"]["rows"]]:
             ctx.fail("corr", "c05.model", desc, {"name": "Drivers/C05 final state vs Engine.price", "impl": r["final"]["Nl"], "model": end}, cls=cls)
+            return
+    # every iteration: what the criteria callbacks received (S: from the simulated samples; C: Mlmc.mlFed/vlFed/clFed)
+    if not oracle_feeds(ctx, desc, r, rates, cls):
+        return
+    q = [w(2.0 ** x) for x in rates]
+    fb = ctx.lean(f"feeds {L0} {N0} {level_max} {q[0]} {q[1]} {q[2]} {enc_history(hist)}").split(" # ")[1:]
+    compare_feeds(ctx, desc, r, [parse_feeds(b.split(" ")[1:6]) for b in fb], cls, 16.0 * (level_max + 1), "c05.feeds.model")
 
 
-def cv_history(ctx, L0, N0, level_max, hist):
-    """with one control variate: the adjusted arrays have exactly the rows of the raw ones and hold Y - b*(X - price_X)
-    with the sample regression coefficient of the level, for the fine and the coarse column"""
-    from rpylib.product.payoff import Forward
-    from rpylib.product.product import Product, ControlVariates
-    from rpylib.product.underlying import Spot
-    desc = dict(L0=L0, N0=N0, level_max=level_max, control_variates=True, history=[[list(a), bool(b), list(c)] for a, b, c in hist])
+def _ctl_enc(specs):
+    return ";".join(f"{k}:{w(a)}:{w(n)}:{w(pr)}" for k, a, n, pr in specs)
+
+
+def parse_read_cv(block, k):
+    t = block.split(" ")
+    assert t[0] == "V", block[:80]
+    d = dict(L=int(t[1]), N=[int(x) for x in rdl(t[2])], err=[int(x) for x in rdl(t[3])], fine=rdll(t[4]), coarse=rdll(t[5]),
+             adjf=rdll(t[6]), adjc=rdll(t[7]), price_cv=rd(t[8]), price=rd(t[9]), dp=rdl(t[10]), vl=rdl(t[11]), cl=rdl(t[12]),
+             fm=rdl(t[13]), xf=[], xc=[])
+    for j in range(k):
+        d["xf"].append(rdll(t[14 + 2 * j]))
+        d["xc"].append(rdll(t[15 + 2 * j]))
+    assert t[14 + 2 * k] == "F", block[:80]
+    d["feeds"] = parse_feeds(t[15 + 2 * k:20 + 2 * k])
+    return d
+
+
+def _b_ref(x, y):
+    """one-control regression coefficient as the statement words it (sample regression coefficient; 0 for a constant control)"""
+    vx = float(np.var(x))
+    return 0.0 if abs(vx) < 1e-12 else float(np.cov(x, y, bias=True)[0, 1] / vx)
+
+
+def _adj_scale(x, y, price):
+    """cancellation-aware magnitude of Y - b (X - price): rounding of cov / var is amplified by 1/var"""
+    n = len(y)
+    if n == 0:
+        return 1.0
+    dx, dy = float(np.max(np.abs(x - np.mean(x)))), float(np.max(np.abs(y - np.mean(y))))
+    vx = float(np.var(x))
+    sb = 0.0 if vx < 1e-12 else (dx * dy / vx) * (1.0 + dx * dx / vx)
+    return float(np.max(np.abs(y))) + n * sb * float(np.max(np.abs(x - price))) + 1e-300
+
+
+def _cv_columns(snap, l, j=0):
+    """(y_fine, y_coarse, x_fine, x_coarse) of level l as float vectors; the level-0 control array has no coarse part"""
+    Y, X = snap["rows"][l], snap["xrows"][l]
+    n = Y.shape[0]
+    xf = X[:, j, 0] if X.ndim == 3 else X[:, j, 0, 0]
+    xc = np.zeros(n) if X.ndim == 3 else X[:, j, 0, 1]
+    return Y[:, 0, 0], Y[:, 0, 1], xf, xc
+
+
+def oracle_cv(ctx, desc, snap, log_upto, specs, cls):
+    """S (independent of M) for the control-variate path at one read point"""
+    sims = {}
+    for kind, l, k in log_upto:
+        if kind == "sim":
+            sims.setdefault(l, []).append(k)
+    kind, par, notional, price_x = specs[0]
+    total, total_raw, centred = 0.0, 0.0, True
+    for l, Y in enumerate(snap["rows"]):
+        ks = sims.get(l, [])
+        n = Y.shape[0]
+        A, X = snap["adj"][l], snap["xrows"][l]
+        what = None
+        if snap["Nl"][l] != len(ks) or n != len(ks):
+            what = f"level {l}: N_l={snap['Nl'][l]}, {n} raw rows, {len(ks)} samples simulated"
+        elif A.shape != Y.shape or X.shape[0] != n:
+            what = f"level {l}: adjusted {A.shape} / control {X.shape} arrays do not have the rows of the raw array {Y.shape}"
+        if what:
+            ctx.fail("oracle", "c05.cv_rows", desc, {"what": what}, cls=cls)
+            return False
+        yf, yc, xf, xc = _cv_columns(snap, l)
+        exp_yf = [fe.DF * fe.fine_value_v(l, k) for k in ks]
+        exp_yc = [0.0 if l == 0 else fe.DF * fe.coarse_value_v(l, k) for k in ks]
+        exp_xf = [fe.DF * notional * fe.control_value(kind, par, fe.fine_value_v(l, k)) for k in ks]
+        exp_xc = [0.0 if l == 0 else fe.DF * notional * fe.control_value(kind, par, fe.coarse_value_v(l, k)) for k in ks]
+        if yf.tolist() != exp_yf or yc.tolist() != exp_yc:
+            ctx.fail("oracle", "c05.rows_are_samples", desc, {"what": f"raw rows of level {l} are not the simulated samples in order"}, cls=cls)
+            return False
+        if xf.tolist() != exp_xf or xc.tolist() != exp_xc:
+            ctx.fail("oracle", "c05.cv_rows", desc, {"what": f"control rows of level {l} are not the controls of the simulated samples in order",
+                                                    "got": xf[:6].tolist(), "expected": exp_xf[:6]}, cls=cls)
+            return False
+        if n == 0:
+            continue
+        for col, (y, x) in enumerate(((yf, xf), (yc, xc))):
+            b = _b_ref(x, y)
+            exp = y - b * (x - price_x)
+            sc = _adj_scale(x, y, price_x)
+            if float(np.max(np.abs(A[:, 0, col] - exp))) > 1e-9 * sc:
+                ctx.fail("oracle", "c05.cv_rows", desc, {"what": "adjusted rows are not Y - b*(X - price_X) over the simulated samples with the level's "
+                                                                  "sample regression coefficient", "level": l, "column": col,
+                                                        "adjusted": A[:4, 0, col].tolist(), "expected": exp[:4].tolist()}, cls=cls)
+                return False
+            if col == 0 or l > 0:
+                centred = centred and abs(float(np.mean(x)) - price_x) <= 1e-15 * max(1.0, abs(price_x))
+        total += float(np.mean(A[:, 0, 0])) - float(np.mean(A[:, 0, 1]))
+        total_raw += float(np.mean(yf)) - float(np.mean(yc))
+    if all(Y.shape[0] > 0 for Y in snap["rows"]):
+        scale = sum(_adj_scale(*(_cv_columns(snap, l)[i] for i in (2, 0)), price_x) + _adj_scale(*(_cv_columns(snap, l)[i] for i in (3, 1)), price_x)
+                    for l in range(len(snap["rows"])))
+        if abs(snap["price_cv"] - total) > 1e-9 * scale:
+            ctx.fail("oracle", "c05.cv_price", desc, {"what": "price with control variates is not the sum of the per-level adjusted means",
+                                                     "price": snap["price_cv"], "expected": total}, cls=cls)
+            return False
+        if centred and abs(snap["price_cv"] - total_raw) > 1e-9 * scale:
+            ctx.fail("oracle", "c05.cv_mean_identity", desc, {"what": "controls' sample means equal their prices on every level but the adjusted price "
+                                                                      "differs from the raw one", "adjusted": snap["price_cv"], "raw": total_raw}, cls=cls)
+            return False
+        if centred:
+            ctx.branches["c05.cv:identity_premise_holds"] += 1
+    return True
+
+
+def compare_read_cv(ctx, desc, snap, m, specs, cls, where):
+    """C: model read point (Model/MlmcCv.lean) vs implementation snapshot"""
+    nl = len(snap["rows"])
+    detail = None
+    price_x = specs[0][3]
+    if m["L"] + 1 != nl or m["N"] != snap["Nl"] or any(m["err"]):
+        detail = {"what": "levels / N_l / shape error flag", "impl": snap["Nl"], "model": [m["N"], m["err"]]}
+    scales = []
+    for l in range(nl if detail is None else 0):
+        yf, yc, xf, xc = _cv_columns(snap, l)
+        A = snap["adj"][l]
+        if [fr(v) for v in yf] != m["fine"][l] or [fr(v) for v in yc] != m["coarse"][l]:
+            detail = {"what": "raw rows differ", "level": l}
+        elif [fr(v) for v in xf] != m["xf"][0][l] or [fr(v) for v in xc] != m["xc"][0][l]:
+            detail = {"what": "control rows differ", "level": l, "impl": xf[:6].tolist(), "model": [float(v) for v in m["xf"][0][l][:6]]}
+        elif A.shape[0] != len(m["adjf"][l]):
+            detail = {"what": "adjusted array: number of rows", "level": l, "impl": A.shape[0], "model": len(m["adjf"][l])}
+        if detail:
+            break
+        sf, sc_ = _adj_scale(xf, yf, price_x), _adj_scale(xc, yc, price_x)
+        scales.append(sf + sc_)
+        if not (all(close(a, b, scale=sf) for a, b in zip(A[:, 0, 0], m["adjf"][l])) and
+                all(close(a, b, scale=sc_) for a, b in zip(A[:, 0, 1], m["adjc"][l]))):
+            detail = {"what": "adjusted rows differ", "level": l, "impl": A[:4, 0, :].tolist(),
+                      "model": [[float(a), float(b)] for a, b in zip(m["adjf"][l][:4], m["adjc"][l][:4])]}
+            break
+        if m["N"][l] > 0:
+            s = sf + sc_
+            if not (close(snap["ml"][l], abs(m["dp"][l]), scale=s) and close(snap["vl"][l], m["vl"][l], scale=s * s)
+                    and close(snap["cl"][l], m["cl"][l]) and close(snap["mean_level"][l], m["fm"][l], scale=s)):
+                detail = {"what": "level statistics read from the adjusted arrays differ", "level": l,
+                          "impl": {k: snap[k][l] for k in ("ml", "vl", "cl", "mean_level")},
+                          "model": {"ml": float(abs(m["dp"][l])), "vl": float(m["vl"][l]), "cl": float(m["cl"][l]), "mean": float(m["fm"][l])}}
+                break
+    if detail is None and all(n > 0 for n in m["N"]):
+        if not close(snap["price_cv"], m["price_cv"], scale=sum(scales)) or not close(snap["price"], m["price"], scale=16 * nl):
+            detail = {"what": "price", "impl": [snap["price_cv"], snap["price"]], "model": [float(m["price_cv"]), float(m["price"])]}
+    if detail:
+        detail["name"] = f"Drivers/C05 pricecv trace vs Engine.price with control variates ({where})"
+        ctx.fail("corr", "c05.cv.model", desc, detail, cls=cls)
+        return False
+    return True
+
+
+def cv_trace(ctx, L0, N0, level_max, hist, specs, tag="cv", rates=(1.0, 2.0, 1.0)):
+    """control variates: at EVERY read point the control and adjusted arrays have exactly the rows of the raw arrays and hold
+    Y - b*(X - price_X) with the level's/column's sample regression coefficient (S), and agree with Model/MlmcCv.lean (C)"""
+    desc = dict(L0=L0, N0=N0, level_max=level_max, control_variates=[list(x) for x in specs],
+                history=[[list(a), bool(b), list(c)] for a, b, c in hist])
+    if tuple(rates) != (1.0, 2.0, 1.0):
+        desc["rates"] = list(rates)
     cls = dict(kind="control_variates")
-    price_x = 3.25
-    cv = ControlVariates(products=[Product(payoff_underlying=Spot(), payoff=Forward(strike=1.5), maturity=fe.T, notional=2.0)], prices=[price_x])
     with warnings.catch_warnings():
         warnings.simplefilter("ignore")
         with np.errstate(all="ignore"):
             try:
-                r = fe.run_mlmc(hist, L0, N0, level_max, control_variates=cv)
+                r = fe.run_mlmc_hooked(hist, L0, N0, level_max, coupling=fe.FakeCouplingV(), control_variates=fe.make_controls(specs),
+                                       snap_fn=fe.snapshot_cv, rates=rates)
             except Exception as e:
                 ctx.fail("oracle", "c05.engine_raises", desc, {"what": f"{type(e).__name__}: {e}"}, cls=cls)
                 return
-    ctx.count("c05.cv_history", desc, nontrivial=len(r["reads"]) >= 1, branch="cv")
-    if r["final"] is None:
-        return
-    if not oracle_rows(ctx, "c05.rows_are_samples", desc, r["final"], r["log"], cls):
-        return
-    st = r["engine"].statistics
-    for l, ms in enumerate(st.mc_statistics):
-        Y = np.array(ms._payoff_statistics.stats, dtype=float)
-        A = np.array(ms._payoff_statistics_with_cv.stats, dtype=float)
-        X = np.array(ms._control_variates_statistics.stats, dtype=float)
-        n = Y.shape[0]
-        if A.shape != Y.shape or X.shape[0] != n:
-            ctx.fail("oracle", "c05.cv_rows", desc, {"what": "adjusted / control arrays do not have the rows of the raw array", "level": l,
-                                                    "raw": Y.shape, "adjusted": A.shape, "controls": X.shape}, cls=cls)
+    ctx.count("c05.cv_history", desc, nontrivial=len(r["reads"]) >= 1, branch=tag)
+    for i, snap in enumerate(r["reads"]):
+        if not oracle_cv(ctx, dict(desc, read=i), snap, r["log"][:snap["loglen"]], specs, cls):
             return
-        if n < 3:
-            continue
-        for col in (0, 1):
-            y = Y[:, 0, col]
-            x = (X[:, 0, 0, col] if X.ndim == 4 else X[:, 0, 0]) if not (l == 0 and col == 1) else np.zeros(n)
-            vx = float(np.var(x))
-            b = 0.0 if abs(vx) < 1e-12 else float(np.cov(x, y, bias=True)[0, 1] / vx)
-            exp_adj = y - b * (x - price_x)
-            if not np.allclose(A[:, 0, col], exp_adj, rtol=1e-9, atol=1e-9):
-                ctx.fail("oracle", "c05.cv_rows", desc, {"what": "adjusted rows are not Y - b*(X - price_X) over the simulated samples", "level": l,
-                                                        "column": col, "adjusted": A[:4, 0, col].tolist(), "expected": exp_adj[:4].tolist()}, cls=cls)
+    if r["final"] is not None and not oracle_cv(ctx, dict(desc, read="final"), r["final"], r["log"], specs, cls):
+        return
+    q = [w(2.0 ** x) for x in rates]
+    out = ctx.lean(f"pricecv {L0} {N0} {level_max} {enc_history(hist)} {_ctl_enc(specs)} {q[0]} {q[1]} {q[2]}")
+    blocks = out.split(" # ")
+    end = blocks[-1].split(" ")
+    reads_m = [parse_read_cv(b, len(specs)) for b in blocks[:-1]]
+    final_m = reads_m.pop() if end[0] == "ret" and reads_m else None
+    if end[0] != r["outcome"] or len(reads_m) != len(r["reads"]):
+        ctx.fail("corr", "c05.cv.model", desc, {"name": "Drivers/C05 pricecv trace vs Engine.price (outcome)", "impl": [r["outcome"], len(r["reads"])],
+                                                "model": [end[0], len(reads_m)]}, cls=cls)
+        return
+    for i, (snap, m) in enumerate(zip(r["reads"], reads_m)):
+        if not compare_read_cv(ctx, desc, snap, m, specs, cls, f"read {i}"):
+            return
+    if r["final"] is not None and final_m is not None:
+        if not compare_read_cv(ctx, desc, r["final"], final_m, specs, cls, "final"):
+            return
+    # every iteration: the callbacks received ml, vl, cl read from the ADJUSTED arrays
+    sc = max([1.0] + [_adj_scale(_cv_columns(sn, l)[2], _cv_columns(sn, l)[0], specs[0][3]) + _adj_scale(_cv_columns(sn, l)[3], _cv_columns(sn, l)[1], specs[0][3])
+                      for sn in r["reads"] for l in range(len(sn["rows"])) if sn["rows"][l].shape[0] > 0])
+    compare_feeds(ctx, desc, r, [m["feeds"] for m in reads_m], cls, sc, "c05.cv.feeds.model")
+
+
+def gen_controls(rng):
+    kind = rng.choice(["sq", "sq", "call", "call", "fwd"])
+    par = {"sq": 0.0, "call": rng.choice([0.5, 1.0, 2.0]), "fwd": rng.choice([1.5, 10.0])}[kind]
+    return [(kind, par, rng.choice([1.0, 2.0, 0.5]), rng.choice([0.0, 0.5, 3.25, -1.0, 7.0]))]
+
+
+def fixed_on(ctx, eng, max_level, mc, prefix):
+    """price_with_constant_mc_paths_and_level on an engine object that has priced before"""
+    desc = dict(fixed=True, max_level=max_level, mc=mc, reuse_prefix=prefix)
+    cls = dict(kind="fixed", engine_reused=True)
+    cfg = eng.configuration
+    cfg.maximum_level, cfg.initial_mc_paths, cfg.initial_level = max_level, mc, max_level
+    log = eng.coupling_process.log
+    del log[:]
+    with warnings.catch_warnings():
+        warnings.simplefilter("ignore")
+        with np.errstate(all="ignore"):
+            try:
+                eng.price_with_constant_mc_paths_and_level(fe.identity_product())
+            except Exception as e:
+                ctx.fail("oracle", "c05.engine_raises", desc, {"what": f"{type(e).__name__}: {e}"}, cls=cls)
                 return
+    snap = fe.snapshot(eng)
+    ctx.count("c05.fixed", desc, nontrivial=max_level >= 1, branch="engine_reuse")
+    if oracle_rows(ctx, "c05.rows_are_samples", desc, snap, list(log), cls):
+        compare_read(ctx, desc, snap, parse_read(ctx.lean(f"fixed {max_level} {mc}")), cls, "fixed after price on the same engine")
+
+
+def reuse_mlmc(ctx, rng):
+    """ONE multilevel Engine object: price(), price() again with a smaller initial sample size / fewer levels, then the fixed-level
+    variant — every run judged like a fresh one (rows = exactly the samples of THIS run)"""
+    level_max = rng.randint(2, 6)
+    L0 = rng.randint(1, min(3, level_max))
+    N0 = rng.choice([5, 10, 20, 40])
+    h1 = gen_history(rng, L0, N0, level_max)
+    r = one_history(ctx, L0, N0, level_max, h1, "reuse:first")
+    if r is None:
+        return
+    eng = r["engine"]
+    prefix = [[L0, N0, level_max, [[list(a), bool(b), list(c)] for a, b, c in h1]]]
+    L0b = rng.randint(0, L0)
+    N0b = rng.choice([1, 2, 3, N0 // 2 + 1, N0])
+    lmb = rng.randint(L0b, level_max) if rng.random() < 0.7 else level_max + 1
+    h2 = gen_history(rng, L0b, N0b, lmb)
+    r2 = one_history(ctx, L0b, N0b, lmb, h2, "reuse:second", engine=eng, prefix=prefix)
+    if r2 is None:
+        return
+    prefix = prefix + [[L0b, N0b, lmb, [[list(a), bool(b), list(c)] for a, b, c in h2]]]
+    fixed_on(ctx, eng, rng.randint(0, 3), rng.choice([1, 2, 7]), prefix)
 
 
 def run(ctx):
     rng = ctx.rng
+    for _ in range(ctx.n(10, 150)):
+        reuse_mlmc(ctx, rng)
     for _ in range(ctx.n(12, 200)):
         level_max = rng.randint(1, 5)
         L0 = rng.randint(0, min(2, level_max))
         N0 = rng.choice([3, 5, 10, 20])
-        cv_history(ctx, L0, N0, level_max, gen_history(rng, L0, N0, level_max))
+        cv_trace(ctx, L0, N0, level_max, gen_history(rng, L0, N0, level_max), gen_controls(rng), rates=rng.choice(RATES))
+    # directed: one level, the control's sample mean equals its price exactly -> the adjusted price must equal the raw one
+    for N0, kind, par in ((4, "sq", 0.0), (8, "call", 1.0), (16, "sq", 0.0)):
+        xs = [fe.DF * 2.0 * fe.control_value(kind, par, fe.fine_value_v(0, k)) for k in range(N0)]
+        cv_trace(ctx, 0, N0, 0, [([N0], True, [])], [(kind, par, 2.0, float(np.mean(xs)))], tag="identity")
     for _ in range(ctx.n(120, 3000)):
         level_max = rng.randint(1, 8)
         L0 = rng.randint(0, min(4, level_max))
         N0 = rng.choice([1, 2, 3, 5, 10, 20, 40, 100, 230])
-        one_history(ctx, L0, N0, level_max, gen_history(rng, L0, N0, level_max), "random")
+        one_history(ctx, L0, N0, level_max, gen_history(rng, L0, N0, level_max), "random", rates=rng.choice(RATES))
     # directed: a level added at iteration t whose first pass has dN in {0,1,2}
     for L0 in (0, 1, 2):
         for N0 in (1, 3, 20):
@@ -280,9 +628,26 @@ def run(ctx):
 
 def replay(ctx, rec):
     d = rec["input"]
+    if "reuse_prefix" in d:
+        eng = None
+        for L0, N0, lm, h in d["reuse_prefix"]:
+            with warnings.catch_warnings():
+                warnings.simplefilter("ignore")
+                with np.errstate(all="ignore"):
+                    eng = fe.run_mlmc_hooked([(a, b, c) for a, b, c in h], L0, N0, lm, engine=eng)["engine"]
+        if d.get("fixed"):
+            fixed_on(ctx, eng, d["max_level"], d["mc"], d["reuse_prefix"])
+        else:
+            one_history(ctx, d["L0"], d["N0"], d["level_max"], [(a, b, c) for a, b, c in d["history"]], rec.get("cls", {}).get("kind", "replay"),
+                        rates=tuple(d.get("rates", (1.0, 2.0, 1.0))), engine=eng, prefix=d["reuse_prefix"])
+        return
     if d.get("fixed"):
         r = fe.run_mlmc_fixed(d["max_level"], d["mc"])
         oracle_rows(ctx, "c05.rows_are_samples", d, r["final"], r["log"], dict(kind="fixed"))
         return
     hist = [(a, b, c) for a, b, c in d["history"]]
-    one_history(ctx, d["L0"], d["N0"], d["level_max"], hist, rec.get("cls", {}).get("kind", "replay"))
+    rates = tuple(d.get("rates", (1.0, 2.0, 1.0)))
+    if d.get("control_variates"):
+        cv_trace(ctx, d["L0"], d["N0"], d["level_max"], hist, [tuple(x) for x in d["control_variates"]], rates=rates)
+        return
+    one_history(ctx, d["L0"], d["N0"], d["level_max"], hist, rec.get("cls", {}).get("kind", "replay"), rates=rates)
